@@ -27,6 +27,16 @@ var commonAssumptions = []string{
 }
 
 var props = map[string]propCfg{
+	"C13": {
+		Race: true, QuickBatches: 8, ThoroughBatches: 64, Parallel: 8, Level: "fault_enumeration", Floor: 200,
+		Rule:        "short streams (2-4 small frames, junk, optional truncated tail, some hostile; <= 400 bytes) read through a scripted io.Reader behind bufio by the real file handler with wait 1 ms / tolerance 120 ms. Tolerant scripts: a single end-of-file or i/o timeout at EVERY byte boundary; double faults (eof / 'i/o timeout' text / wrapped os.ErrDeadlineExceeded, any pair) at every 4th boundary; two separate interruptions (single or double) at random boundaries - all bytes must be processed exactly once in order (delivered sequence = the same build's sequential framing of all bytes), the channel closed and an error returned at the final silence. Stop scripts at every (quick: every 3rd) boundary: zero tolerance, another read error, or silence beyond the tolerance followed by data that must not be consumed - delivered = sequential framing of the bytes supplied before the stop (partial frame as non-RTCM), channel closed, error returned. The reader timestamps its faults: a tolerant script on which the handler gave up while two consecutive faults were >= half the tolerance apart is retried and otherwise inconclusive. Non-trivial: the fault falls strictly inside a frame. Distinct by hash of the script.",
+		Assumptions: commonAssumptions,
+	},
+	"C09": {
+		Race: true, QuickBatches: 16, ThoroughBatches: 96, Parallel: 8, Level: "exploration", Floor: 40,
+		Rule:        "pipeline runs of the real file handler + fan-out (appcore.HandleMessagesUntilEOF) under the race detector: inputs are the captured batches and generated clean/hostile streams (200 B - 12 kB); the reader delivers chunks of 1..{1,2,7,64,500,5000} bytes with yield/sleep profiles; 1-4 consumer channels with capacities {0,1,4,64}, nil entries at any index and fast/yielding/slow(50us-2ms)/bursty consumers; GOMAXPROCS in {1,2,3,4,8,16}; check-time yield/sleep hooks before every channel operation of file_handler, handler, pushback and appcore (5 profiles). Oracle: every non-nil consumer's (type, raw bytes) sequence equals the same build's sequential framing of the same bytes; raw bytes do not change after delivery; the call returns 0; afterwards no goroutine with a frame in the four pipeline files remains (blocked in every sample for 200 ms = violation, still runnable = inconclusive); double close / send on closed channel / race report end the child. Non-trivial: >=2 real consumers, >=10 messages and a perturbation active. Distinct by hash of (input, reader, consumers, GOMAXPROCS, hook profile, seed).",
+		Assumptions: commonAssumptions,
+	},
 	"C06": {
 		QuickBatches: 8, ThoroughBatches: 64, Parallel: 16, Level: "exploration", Floor: 100,
 		Rule:        "histories generated truth first: a start time T (any of 7 time zones; half of them within +-2 s, a quarter of those within +-2 ms, of a constellation's week rollover), then per participating constellation (random non-empty subset of GPS, GLONASS, Galileo, BeiDou) true UTC observation instants u1 <= u2 <= ... with u1 >= T inside T's constellation week and gaps in {0, 1 ms, seconds, hours, up to 6 d - 1 ms, exactly on/around the next rollover}, spanning 0..many rollovers; each instant is converted to its 30-bit timestamp by pure time arithmetic (no rollover logic in the oracle); constellations and MSM4/MSM7 types are interleaved at random and illegal timestamps (>= 7 d of ms; GLONASS day 7 or >= 24 h of ms) are spliced in anywhere. The frames go through handler.GetMessage on one handler, a third of the histories through the stream handler. Every reported SentAt and StartOfWeek is parsed back and must equal the true instant / true week start; illegal timestamps must come back as errors without disturbing later messages. Non-trivial: >=2 constellations cross a rollover, or an illegal timestamp is followed by valid messages. Distinct by hash of the history.",
